@@ -265,6 +265,20 @@ def w_loopback(ctx: core.Ctx, arg):
                 wsd._send_probe([nsh.DPWS.tag('Device')], scopes)
             else:
                 wsd._send_resolve(epr)
+        # transient send errors: some transmissions fail (ENETUNREACH), the repetitions that do leave the node are looped back
+        sock0 = thread.multi_out_uni_in_out
+        fail_every = rng.choice([0, 0, 2, 3])
+        if fail_every:
+            orig_sendto = sock0.sendto
+            state = {'n': 0}
+
+            def flaky_sendto(data, addr, _orig=orig_sendto, _state=state):
+                _state['n'] += 1
+                if _state['n'] % fail_every == 1:
+                    ctx.count('loopback.send_errors_injected')
+                    raise OSError(101, 'Network is unreachable')
+                return _orig(data, addr)
+            sock0.sendto = flaky_sendto
         thread._quit_send_event.set()
         thread._run_send()
         own = thread.multi_out_uni_in_out.sent
@@ -341,6 +355,7 @@ def run(ctx: core.Ctx):
     ctx.floor('loopback.own_datagrams', 50)
     ctx.floor('loopback.foreign_ids', 20)
     ctx.floor('loopback.prefilled_runs', 8)
+    ctx.floor('loopback.send_errors_injected', 10)
     ctx.assumptions += ['time and random are looked up as module globals of networkingthread (replaced by a virtual clock / enumerating stub)',
                         'sockets and selectors are fakes; the kernel UDP path is not exercised']
 
